@@ -104,7 +104,7 @@ public:
       }
     auto catalog(mounted->volume()->root());
 
-    int sectors_used = 2;
+    int sectors_used = catalog.catalog_sectors();
     const std::vector<DFS::CatalogEntry> entries = catalog.entries();
     for (const auto& entry : entries)
       {
